@@ -1,5 +1,6 @@
 import Perp.Spec.World
 import Perp.Props.ModelStep
+import Perp.Spec.Monitor
 import Driver.WorldParse
 
 /-!
@@ -142,6 +143,39 @@ def srcHist (kv : KV) : Option Nat :=
   | some s => (s.splitOn ":").head?.bind (·.toNat?)
   | none => none
 
+/-! ### theorem-hypothesis monitor
+
+  `Capstone.reachable_sat` and the `sat_*` theorems hold under `AllInv` (invariants) and `SideOK` (per-step side
+  conditions); `Perp.Spec.Monitor` gives Boolean versions, proved equivalent in `Perp.Props.MonitorSound`.  The
+  driver evaluates them on the IMPLEMENTATION's observed worlds:
+  * on the first observation of a history: `Deployed` (and its consequence `AllInv`, `Capstone.deployed_allInv`);
+  * on every step whose observed pre-state satisfies `AllInv` and which satisfies `SideOK`: the theorems apply to
+    this very step (`Capstone.allInv_clean_core`, `allInv_step`), in particular they predict `AllInv` of the
+    post-state — a failure there is a break of the tie between model and implementation (the model provably
+    preserves the invariant) and is reported for the properties whose theorems rest on the failing component.
+  Steps outside the domain are only counted, by the first failing hypothesis. -/
+
+/-- the in-flight records are observed as presence flags only (`obs.w.engine` carries `none`) -/
+def obsAllInvFails (o : Obs) : List String :=
+  (if o.tmp || o.sent || o.liq then ["wf:noResidue"] else []) ++ Perp.Spec.Monitor.allInvFails o.w
+
+/-- the properties whose refinement theorems read a component of `AllInv` (see the field comments of
+    `Capstone.AllInv`) -/
+def propsOfInvTag (tag : String) : List String :=
+  if tag.startsWith "wf" then ["C08"]
+  else if tag == "vammKeys" then ["C01"]
+  else if tag == "mirror:sum" || tag == "mirror:noZeroVamm" || tag == "mirror:signDir" then ["C02"]
+  else if tag == "mirror:keys" then ["C10"]
+  else if tag == "mirror:engineConfig" || tag.startsWith "config" then ["C20"]
+  else if tag == "mirror:noResidue" then ["C08"]
+  else if tag == "traders" || tag == "total" then ["C03"]
+  else if tag == "snap" then ["C18"]
+  else if tag == "marginRep" then ["C05"]
+  else if tag == "noContract" then ["C06"]
+  else if tag == "registry" then ["C14"]
+  else if tag == "buffer" then ["C11"]
+  else ["C08"]
+
 def handleWCfg (acc : Acc) (prev : WHist) (kv : KV) (_line : String) : Acc × WHist :=
   -- a search mini-history inherits the liquidation log of the history it continues
   let inherits := srcHist kv == some prev.hist || (kv.get? "src").isSome && prev.srcOf == srcHist kv
@@ -159,7 +193,18 @@ def handleWObs (acc : Acc) (h : WHist) (kv : KV) (_line : String) : Acc × WHist
   let obs := parseObs kv
   match h.pending with
   | none =>
-    -- initial observation
+    -- initial observation: is the real deployment a `Capstone.Deployed` world?  (search mini-histories start
+    -- from a replayed prefix, not from a deployment)
+    let acc :=
+      if h.srcOf.isSome then acc else
+      let df := (if obs.tmp || obs.sent || obs.liq then ["noResidue"] else []) ++ Perp.Spec.Monitor.deployedFails obs.w
+      let acc := acc.hypCount "deployments"
+      let acc := if df.isEmpty then acc.hypCount "deployments:Deployed" else acc.hypCount s!"deployments:not-Deployed({df.headD ""})"
+      -- `Capstone.deployed_allInv`: a deployed world satisfies every invariant
+      if df.isEmpty then
+        (obsAllInvFails obs).foldl (fun a tag =>
+          (propsOfInvTag tag).foldl (fun a p => a.report "DISAGREE" p s!"hyp:deployed-but-not-allinv:{tag}" _line) a) acc
+      else acc
     (acc, { h with last := obs, seen := obs.w.vamms.map (fun p => (p.1, p.2.st)) }, none)
   | some (tkv, tline) =>
     let acc := { acc with checked := acc.checked + 1 }
@@ -193,6 +238,17 @@ def handleWObs (acc : Acc) (h : WHist) (kv : KV) (_line : String) : Acc × WHist
         (acc, { next with seen := h.seen }, some step)
       else
       let impersonated' := kind == "ifwithdraw" && sender == ENGINE && h.last.w.engine.cfg.insuranceFund != IFUND
+      -- 0. theorem-hypothesis monitor on the implementation's observations
+      let acc := acc.hypCount "steps"
+      let preInv := obsAllInvFails h.last
+      let acc :=
+        if !preInv.isEmpty then acc.hypCount s!"steps:outside(pre-state:{preInv.headD ""})" else
+        let sf := Perp.Spec.Monitor.sideFails h.last.w env sender funds tx
+        if !sf.isEmpty then acc.hypCount s!"steps:outside(side:{sf.headD ""})" else
+        let acc := acc.hypCount "steps:in-theorem-domain"
+        let acc := acc.hypCount s!"steps:in-theorem-domain:{kind}:{if ok then "ok" else "err"}"
+        (obsAllInvFails obs).foldl (fun a tag =>
+          (propsOfInvTag tag).foldl (fun a p => a.report "DISAGREE" p s!"{kind}:hyp:allinv-not-preserved:{tag}" tline) a) acc
       -- 1. specification on the implementation's observations
       -- C07 failures carry the class of the implementation's error (diagnostic, used by known-finding signatures)
       let errClass : String :=
